@@ -192,13 +192,14 @@ theorem body_ports (o : Opts) (n : BNet) (t : String) (hw : WellNamed n)
       DefEx st t → StdKids n st → StdL st →
       ∃ st', elabStmts st t (l.map (stmtOfFull o n)) = Except.ok st' ∧
         (∀ k ∈ l, ∀ q ∈ k.1.pins, ∃ p, findIn (portsOf st' k.1.model) q.1 = some p ∧ q.2 < p.width) ∧
-        (∀ m W, (∀ k ∈ l, k.1.model = m → ∀ q ∈ k.1.pins, q.2 < W q.1) → UBd st m W → UBd st' m W) := by
+        (∀ m W, (∀ k ∈ l, k.1.model = m → ∀ q ∈ k.1.pins, q.2 < W q.1) → UBd st m W → UBd st' m W) ∧
+        StdKids n st' ∧ StdL st' := by
   have hcab : ∀ c ∈ n.cables, plainName c.1.2 ∧ c.1.2.toList ≠ [] := fun c hcm => ⟨(hc c hcm).1, (hc c hcm).2.2⟩
   intro l
   induction l with
   | nil =>
-    intro pre _ _ st _ _ _ _ _
-    exact ⟨st, rfl, (fun k hk' => by cases hk'), (fun _ _ _ u => u)⟩
+    intro pre _ _ st _ _ _ hsk hsl
+    exact ⟨st, rfl, (fun k hk' => by cases hk'), (fun _ _ _ u => u), hsk, hsl⟩
   | cons a r ih =>
     intro pre hmem hnd st hlen hnames hd hstd hsl
     have hkm : a ∈ n.insts.zipIdx := hmem a (by simp)
@@ -217,12 +218,12 @@ theorem body_ports (o : Opts) (n : BNet) (t : String) (hw : WellNamed n)
         (fun hn => hstd a.1 hai hn) hd
     obtain ⟨lb1, ub1, pm1, sl1⟩ := kid_ports o n t hw hc a hkm hshape st s1 (fun hn => hstd a.1 hai hn) hsl (hlsep a hkm) h1
     have hstd1 : StdKids n s1 := stdKids_step n t hk a hkm st s1 sd1 sn1 hstd
-    obtain ⟨s2, h2, lb2, ub2⟩ := ih (pre ++ [a])
+    obtain ⟨s2, h2, lb2, ub2, sk2, sl2⟩ := ih (pre ++ [a])
       (fun k hkm' => hmem k (by simp [hkm']))
       (by intro hwc; simpa [List.append_assoc] using hnd hwc) s1 (by simpa using l1) (by
         intro hwc
         rw [n1 hwc, hnames hwc]; simp) f1.2 hstd1 sl1
-    refine ⟨s2, ?_, ?_, ?_⟩
+    refine ⟨s2, ?_, ?_, ?_, sk2, sl2⟩
     · simp only [List.map_cons]
       unfold elabStmts
       rw [h1]; exact h2
